@@ -12,7 +12,7 @@ from pv.gen import expr
 ID = 'C06'
 LEVEL = 'exploration'
 TECHNIQUE = ('differential + metamorphic runtime monitors on generated acyclic rule graphs; recording check classes '
-             'hooked into the real evaluation observe the current_rule argument')
+             'hooked into the real evaluation observe the current_rule argument; overlapping requests under a deterministic line-level thread scheduler (sys.monitoring)')
 RULE = ('cases = acyclic rule sets over <= 8 names (acyclic including the undefined->default edge): random expression '
         'bodies mixing role checks, recording checks and rule: references; dedicated shapes: alias chains to depth 8, '
         'diamonds, references under not/and/or, undefined references; with and without a default rule (option default name, constructor name, '
